@@ -181,6 +181,10 @@ def rule_r2_r3(ctx, rep):
                 md_.mark(c, "EVAL")
         _fl, exits_ = _rm(ctx, tfi, md_)
         okx = bool(exits_) and all("WALK" in must and "EVAL" in must for (must, _may) in exits_)
+        if not rec:
+            # explicit-stack form: the loop body was held to "no exit, no condition" above and the stack starts with the root, so the
+            # only way around the evaluation is a return in front of / outside the loop
+            okx = not [x for x in ast.walk(tfi.node) if isinstance(x, ast.Return) and x is not tfi.node.body[-1]]
         rep.oblige(("R2", "walk-all-paths"), okx)
         if not okx:
             rep.add("R2", tfi.qname, "early exit of evaluate.tree", "evaluate.tree can return without evaluating the node and walking its children (a test on the "
@@ -233,8 +237,16 @@ def _check_tuple(ctx, rep, fi, ft, x, members, emitted):
             for n in ast.walk(fi.node):
                 if isinstance(n, ast.Assign) and any(isinstance(t, ast.Name) and t.id == x.elts[0].id for t in n.targets):
                     c = prog.const(fi.module, n.value)
+                    tbl = None
+                    if isinstance(n.value, ast.Call) and isinstance(n.value.func, ast.Attribute) and n.value.func.attr == "get" and 1 <= len(n.value.args) <= 2 \
+                            and (len(n.value.args) == 1 or (isinstance(n.value.args[1], ast.Constant) and n.value.args[1].value is None)):
+                        tbl = prog.const(fi.module, n.value.func.value)  # TABLE.get(key): one of the table's values, or None
+                    elif isinstance(n.value, ast.Subscript):
+                        tbl = prog.const(fi.module, n.value.value)
                     if isinstance(c, EnumMember) and c.cls == EWARN:
                         codes.append(c.member)
+                    elif isinstance(tbl, dict) and tbl and all(isinstance(v_, EnumMember) and v_.cls == EWARN for v_ in tbl.values()):
+                        codes.extend(v_.member for v_ in tbl.values())
                     elif not (isinstance(n.value, ast.Constant) and n.value.value is None):
                         ok, why = False, f"the warning code variable is bound to `{norm(n.value)}`, not an EvaluationWarning member"
         else:
@@ -388,8 +400,9 @@ def run(ctx, rep):
         "must hold a non-null fact); keys of the table fold to known element names; every value appended to a warning list is a "
         "(declared EvaluationWarning member, str, Node) triple; the walk visits all children unconditionally; every declared "
         "warning is emitted somewhere; the three threshold guards are evaluated at t-1, t, t+1")
-    rep.rules_run = ["R1", "R2", "R3", "R4", "R5", "R6", "R7", "R8", "R9"]
-    rep.assumptions += ["NOT decided: that the emitted set equals the documented recommendations on every tree (behavioural)",
+    rep.rules_run = ["R1", "R2", "R3", "R4", "R5", "R6", "R7", "R8", "R9", "R10", "R11"]
+    rep.assumptions += ["R10 decides the emitted set per class of facts the recommendations are stated in; classes on which the documentation is ambiguous "
+                        "(present-but-empty TextType elements other than abstract / description, a second physical element, ...) are not listed",
                         "word counting relies on normalize()/str.split (library semantics, C20)"]
     only = getattr(rep, "only", None)
     if only in (None, "R1"):
@@ -400,6 +413,20 @@ def run(ctx, rep):
         rule_r4(ctx, rep)
     if only in (None, "R5", "R6"):
         rule_r5_r6(ctx, rep)
+    if only in (None, "R10"):
+        from .c19_worlds import rule_r10
+        mi_ = ctx.prog.module(EVAL)
+        tbl_ = _as_dict_literal(ctx.prog, mi_, mi_.consts.get("rules"))
+        table_of = {}
+        if isinstance(tbl_, ast.Dict):
+            for k_, v_ in zip(tbl_.keys, tbl_.values):
+                kv_ = ctx.prog.const(mi_, k_) if k_ is not None else UNKNOWN
+                r_ = ctx.prog.resolve_name_expr(mi_, v_) if isinstance(v_, (ast.Name, ast.Attribute)) else None
+                if isinstance(kv_, str) and r_ and r_[0] == "func":
+                    table_of[kv_] = r_[1]
+        rule_r10(ctx, rep, table_of)
+        from .c19_worlds import rule_r11
+        rule_r11(ctx, rep)
     if only in (None, "R9"):
         # `if some_node:` means "the element is there" only while Node has plain object truthiness
         from ..types import T_NODE as _TN, T_OPT as _TO
